@@ -153,3 +153,23 @@ SPECS["C18"] = dict(
         c18("range_nu_w1024", "harness_range_nu", "thorough", defs={"RANGE_W": 1024}, solver="kissat", timeout=2400, bounds="all generator states, x < 2^10, max-min < 2^10"),
     ],
 )
+
+
+def c07(name, func, tier, nl, k, timeout=600, **kw):
+    return Q(name, "c07_termination.c", tier=tier, func=func, defs={"NL": nl, "K": k}, unwind=max(nl, k) + 2, timeout=timeout,
+             bounds="%d LPs on one thread, %d arbitrary operations (forward event / rollback / GVT round) from the real initialisation; all timestamps >= 0 incl. 0 and ties, predicate results arbitrary" % (nl, k), **kw)
+
+
+SPECS["C07"] = dict(
+    level="model_checking",
+    encodes=["gvt/termination.c:termination_global_init", "termination_lp_init", "termination_on_msg_process",
+             "termination_on_lp_rollback", "termination_on_gvt"],
+    assumptions=["operations arrive in a legal order: per-LP event times non-decreasing between rollbacks, nothing below a reported GVT (C04), a rollback at time t undoes the events not before t (ties count as undone)",
+                 "the model predicate is an arbitrary boolean per evaluation; MPI broadcast is a recording stub"],
+    outside=["multi-rank vote collection", "RootsimStop", "the liveness half (C08)"],
+    queries=[
+        c07("run_3lp_5ops", "harness_run", "quick", 3, 5),
+        c07("run_2lp_8ops", "harness_run", "thorough", 2, 8, timeout=1800),
+        c07("run_3lp_7ops", "harness_run", "thorough", 3, 7, timeout=1800),
+    ],
+)
